@@ -482,34 +482,60 @@ func runC13(c *Ctx) {
 	// (1) the in-place span append in UnifyChunks is guarded by Emit on both edits
 	c.sawFn(fnName(unify))
 	opF := P.Field("slice", "Edit", "Op")
-	nApp := 0
-	allInstrs(unify, func(in ssa.Instruction) {
-		ap, ok := isBuiltinCall2(in, "append")
-		if !ok {
-			return
-		}
-		base, f := loadedField(ap.Call.Args[0])
-		if f == nil || f.Name() != "X" && f.Name() != "Y" || !isEditType(base.Type()) {
-			return
-		}
-		nApp++
-		// facts: Op == '=' on base and on the source's edit
-		emitOn := map[ssa.Value]bool{}
-		for _, cm := range cmpsAt(in.Block()) {
+	usc := buildCallScope(unify)
+	// emitKnown: the edit v points to is known to be an Emit edit at block b (facts there, or — for a
+	// helper's parameter — at every call site of the helper)
+	var emitKnown func(v ssa.Value, b *ssa.BasicBlock, depth int) bool
+	emitKnown = func(v ssa.Value, b *ssa.BasicBlock, depth int) bool {
+		for _, cm := range cmpsAt(b) {
 			if cm.Op == token.EQL && isConstInt(cm.Y, '=') {
-				if b2, f2 := loadedField(cm.X); f2 != nil && sameField(f2, opF) {
-					emitOn[b2] = true
+				if b2, f2 := loadedField(cm.X); f2 != nil && sameField(f2, opF) && b2 == v {
+					return true
 				}
 			}
 		}
-		var src ssa.Value
-		if len(ap.Call.Args) > 1 {
-			if b2, f2 := loadedField(ap.Call.Args[1]); f2 != nil && (f2.Name() == "X" || f2.Name() == "Y") {
-				src = b2
+		if p, ok := v.(*ssa.Parameter); ok && depth < 3 {
+			sites := usc.sitesOf(p.Parent())
+			if len(sites) == 0 {
+				return false
 			}
+			idx := -1
+			for i, q := range p.Parent().Params {
+				if q == p {
+					idx = i
+				}
+			}
+			for _, s := range sites {
+				if idx < 0 || idx >= len(s.call.Call.Args) || !emitKnown(s.call.Call.Args[idx], s.call.Block(), depth+1) {
+					return false
+				}
+			}
+			return true
 		}
-		c.judge(emitOn[base] && (src == nil || emitOn[src]), "R-CONTEXT-FRESH", "mdiff.UnifyChunks:in-place append", in.Pos(), "only between two Emit (context) edits", "a span is extended in place without both edits being known to be Emit: it may write into Left, Right or the original script")
-	})
+		return false
+	}
+	nApp := 0
+	for _, ufn := range usc.fns {
+		allInstrs(ufn, func(in ssa.Instruction) {
+			ap, ok := isBuiltinCall2(in, "append")
+			if !ok {
+				return
+			}
+			base, f := loadedField(ap.Call.Args[0])
+			if f == nil || f.Name() != "X" && f.Name() != "Y" || !isEditType(base.Type()) {
+				return
+			}
+			nApp++
+			c.sawFn(fnName(ufn))
+			var src ssa.Value
+			if len(ap.Call.Args) > 1 {
+				if b2, f2 := loadedField(ap.Call.Args[1]); f2 != nil && (f2.Name() == "X" || f2.Name() == "Y") {
+					src = b2
+				}
+			}
+			c.judge(emitKnown(base, in.Block(), 0) && (src == nil || emitKnown(src, in.Block(), 0)), "R-CONTEXT-FRESH", "mdiff.UnifyChunks:in-place append", in.Pos(), "only between two Emit (context) edits", "a span is extended in place without both edits being known to be Emit: it may write into Left, Right or the original script")
+		})
+	}
 	if nApp == 0 {
 		c.ok("R-CONTEXT-FRESH", "mdiff.UnifyChunks:in-place append", unify.Pos(), "no in-place span append at all")
 	}
@@ -647,23 +673,25 @@ func runC13(c *Ctx) {
 	// (5) Unify edits the chunk's own edit list: stores to Edit fields go through pointers into it, not into local copies
 	{
 		nSt := 0
-		allInstrs(unify, func(in ssa.Instruction) {
-			st, ok := in.(*ssa.Store)
-			if !ok {
-				return
-			}
-			fa, ok := st.Addr.(*ssa.FieldAddr)
-			if !ok || !isEditType(fa.X.Type()) {
-				return
-			}
-			_, f := fieldVarOf(fa)
-			if f.Name() != "X" && f.Name() != "Y" {
-				return
-			}
-			nSt++
-			_, isLocal := fa.X.(*ssa.Alloc)
-			c.judge(!isLocal, "R-CONTEXT-FRESH", "mdiff.UnifyChunks:Edit."+f.Name()+" updated in place", st.Pos(), "written through a pointer into the chunk's edit list", "a context edit is trimmed/extended on a local COPY of the edit: the change never reaches the chunk's edit list and the dropped lines vanish from the merged chunk")
-		})
+		for _, ufn := range usc.fns {
+			allInstrs(ufn, func(in ssa.Instruction) {
+				st, ok := in.(*ssa.Store)
+				if !ok {
+					return
+				}
+				fa, ok := st.Addr.(*ssa.FieldAddr)
+				if !ok || !isEditType(fa.X.Type()) {
+					return
+				}
+				_, f := fieldVarOf(fa)
+				if f.Name() != "X" && f.Name() != "Y" {
+					return
+				}
+				nSt++
+				_, isLocal := fa.X.(*ssa.Alloc)
+				c.judge(!isLocal, "R-CONTEXT-FRESH", "mdiff.UnifyChunks:Edit."+f.Name()+" updated in place", st.Pos(), "written through a pointer into the chunk's edit list", "a context edit is trimmed/extended on a local COPY of the edit: the change never reaches the chunk's edit list and the dropped lines vanish from the merged chunk")
+			})
+		}
 		if nSt == 0 {
 			c.undecided("R-CONTEXT-FRESH", "mdiff.UnifyChunks:Edit updated in place", unify.Pos(), "no context-edit update found")
 		}
@@ -740,9 +768,18 @@ func runC13(c *Ctx) {
 	}
 	var scope []*ssa.Function
 	// New's two accumulator closures are one-sided by design (a Drop moves only the left side); they are compared as a mirrored pair below
-	scope = append(scope, addCtx, unify)
-	scope = append(scope, addCtx.AnonFuncs...)
-	scope = append(scope, unify.AnonFuncs...)
+	scope = append(scope, buildCallScope(addCtx).fns...)
+	for _, f := range usc.fns {
+		dup := false
+		for _, g := range scope {
+			if g == f {
+				dup = true
+			}
+		}
+		if !dup {
+			scope = append(scope, f)
+		}
+	}
 	for _, fn := range scope {
 		name := fnName(fn)
 		byBlock := map[*ssa.BasicBlock][]rstore{}
@@ -1033,6 +1070,7 @@ func ruleTrimSide(c *Ctx) {
 	}
 	c.rule("R-TRIM-SIDE", 2, "overlap is cut from the tail of the trailing context and from the head of the leading context")
 	c.sawFn(fnName(unify))
+	usc := buildCallScope(unify)
 	// position of an edit pointer: "last" if every PtrAt/At leaf has index -1, "first" if 0
 	var where func(v ssa.Value, seen map[ssa.Value]bool) string
 	where = func(v ssa.Value, seen map[ssa.Value]bool) string {
@@ -1054,6 +1092,47 @@ func ruleTrimSide(c *Ctx) {
 				res = w
 			}
 			return res
+		case *ssa.Parameter:
+			// a helper's parameter: where do the arguments point?
+			res := ""
+			for _, a := range usc.paramArgs(x) {
+				w := where(a, seen)
+				if w == "" {
+					continue
+				}
+				if res != "" && res != w {
+					return "?"
+				}
+				res = w
+			}
+			if res == "" {
+				return "?"
+			}
+			return res
+		case *ssa.Extract:
+			// a result of a helper that hands the (possibly re-fetched) edit pointers back
+			if call, ok := x.Tuple.(*ssa.Call); ok {
+				if cal := origin(staticCallee(&call.Call)); cal != nil && cal.Blocks != nil {
+					res := ""
+					bad := false
+					allInstrs(cal, func(in ssa.Instruction) {
+						if ret, ok := in.(*ssa.Return); ok && x.Index < len(ret.Results) {
+							w := where(ret.Results[x.Index], seen)
+							if w == "" {
+								return
+							}
+							if res != "" && res != w {
+								bad = true
+							}
+							res = w
+						}
+					})
+					if bad || res == "" {
+						return "?"
+					}
+					return res
+				}
+			}
 		case *ssa.Call:
 			if cal := staticCallee(&x.Call); cal != nil && (cal.Name() == "PtrAt" || cal.Name() == "At") && len(x.Call.Args) == 2 {
 				if k, ok := constInt(x.Call.Args[1]); ok {
@@ -1078,36 +1157,38 @@ func ruleTrimSide(c *Ctx) {
 		return "?"
 	}
 	n := 0
-	allInstrs(unify, func(in ssa.Instruction) {
-		st, ok := in.(*ssa.Store)
-		if !ok {
-			return
-		}
-		fa, ok := st.Addr.(*ssa.FieldAddr)
-		if !ok || !isEditType(fa.X.Type()) {
-			return
-		}
-		sl, ok := st.Val.(*ssa.Slice)
-		if !ok {
-			return
-		}
-		if b2, _ := loadedField(sl.X); b2 != fa.X {
-			return
-		}
-		n++
-		w := where(fa.X, map[ssa.Value]bool{})
-		keepsPrefix := sl.Low == nil && sl.High != nil
-		keepsSuffix := sl.Low != nil && sl.High == nil
-		key := "mdiff.UnifyChunks:trim " + w + " edit"
-		switch w {
-		case "last":
-			c.judge(keepsPrefix, "R-TRIM-SIDE", key, st.Pos(), "the previous chunk's trailing context keeps its first lines", "the previous chunk's trailing context is cut at the wrong end: the overlapping lines are its LAST ones, so a prefix must be kept, but the code keeps "+ksym(sl))
-		case "first":
-			c.judge(keepsSuffix, "R-TRIM-SIDE", key, st.Pos(), "the current chunk's leading context keeps its last lines", "the current chunk's leading context is cut at the wrong end: the overlapping lines are its FIRST ones, so a suffix must be kept, but the code keeps "+ksym(sl))
-		default:
-			c.undecided("R-TRIM-SIDE", key, st.Pos(), "cannot tell whether the trimmed edit is the first or the last of its chunk")
-		}
-	})
+	for _, ufn := range usc.fns {
+		allInstrs(ufn, func(in ssa.Instruction) {
+			st, ok := in.(*ssa.Store)
+			if !ok {
+				return
+			}
+			fa, ok := st.Addr.(*ssa.FieldAddr)
+			if !ok || !isEditType(fa.X.Type()) {
+				return
+			}
+			sl, ok := st.Val.(*ssa.Slice)
+			if !ok {
+				return
+			}
+			if b2, _ := loadedField(sl.X); b2 != fa.X {
+				return
+			}
+			n++
+			w := where(fa.X, map[ssa.Value]bool{})
+			keepsPrefix := sl.Low == nil && sl.High != nil
+			keepsSuffix := sl.Low != nil && sl.High == nil
+			key := "mdiff.UnifyChunks:trim " + w + " edit"
+			switch w {
+			case "last":
+				c.judge(keepsPrefix, "R-TRIM-SIDE", key, st.Pos(), "the previous chunk's trailing context keeps its first lines", "the previous chunk's trailing context is cut at the wrong end: the overlapping lines are its LAST ones, so a prefix must be kept, but the code keeps "+ksym(sl))
+			case "first":
+				c.judge(keepsSuffix, "R-TRIM-SIDE", key, st.Pos(), "the current chunk's leading context keeps its last lines", "the current chunk's leading context is cut at the wrong end: the overlapping lines are its FIRST ones, so a suffix must be kept, but the code keeps "+ksym(sl))
+			default:
+				c.undecided("R-TRIM-SIDE", key, st.Pos(), "cannot tell whether the trimmed edit is the first or the last of its chunk")
+			}
+		})
+	}
 	if n == 0 {
 		c.undecided("R-TRIM-SIDE", "mdiff.UnifyChunks", unify.Pos(), "no context trimming found")
 	}
